@@ -731,6 +731,19 @@ func (e *Env) call(x ECall) EVal {
 			n.fr = e.oldFr
 		}
 		return n.eval(x.Args[0])
+	case "at_lock":
+		// at_lock(e): e evaluated in the state right after this function first acquired a
+		// mutex (the linearisation point of a method that locks); old(e) if it never locked
+		snap := e.st.LockSnap
+		if snap == nil {
+			snap = e.old
+		}
+		if snap == nil {
+			efail("at_lock() is not available here")
+		}
+		n := *e
+		n.st = snap
+		return n.eval(x.Args[0])
 	case "len":
 		v := arg(0)
 		if v.T.Sort == SStr {
